@@ -70,6 +70,7 @@ class Env:
         self.notes = []
         self.max_witness_tries = 40
         self.roundoff = 0
+        self.abs_roundoff = None
         self.indicator_branch = None   # 0/1: obligations are stated on the branch where every mask indicator has this value
         if self.sym:
             self.xp = npshim.make(True)
@@ -243,7 +244,16 @@ class Env:
         rp = r.p if isinstance(r, RF) else ({S.ONE: S._tofrac(r)} if S._tofrac(r) else {})
         lp = l.p
         small = None
+        thr = None
+        if self.abs_roundoff is not None:
+            mx = max([abs(c) for c in lp.values()] + [abs(c) for c in rp.values()] + [0])
+            thr = max(mx, 1) * Fraction(self.abs_roundoff)
         for m, c in d.p.items():
+            if thr is not None and abs(c) <= thr:
+                if small is None:
+                    small = set()
+                small.add(m)
+                continue
             a = lp.get(m)
             b = rp.get(m)
             if a is None or b is None:
@@ -378,6 +388,71 @@ class Env:
             self.numeric[name] = (np.array([0.0 if bool(cond) else 1.0]), np.array([1.0]), np.array([0.0]), np.array([0.0]))
         return o
 
+    def positive(self, prop, name, exprs, bounds):
+        """every entry of exprs is > 0 for all variable values inside the box `bounds` {variable name: (lo, hi)} (closed
+        intervals): polynomial obligations discharged by z3 (QF_NRA); refuted ones carry z3's model as witness"""
+        from . import smt
+        import z3
+        t0 = time.time()
+        E = np.asarray(exprs, dtype=object if self.sym else float)
+        if not self.sym:
+            self.numeric[name] = (np.where(E > 0, 0.0, 1.0), np.ones(E.shape), E.copy(), np.zeros(E.shape))
+            return None
+        o = self._new(prop, name, "sign")
+        for idx in (np.ndindex(*E.shape) if E.shape else [()]):
+            o.n += 1
+            e = E[idx]
+            if not isinstance(e, RF):
+                if e > 0:
+                    o.ok += 1
+                else:
+                    o.refuted.append(dict(entry=list(idx), witness={}, value=float(e)))
+                continue
+            if e.is_const():
+                if e.cval() > 0:
+                    o.ok += 1
+                else:
+                    o.refuted.append(dict(entry=list(idx), witness=dict(self.pins), value=float(e.cval())))
+                continue
+            names = {}
+            z = smt.poly_to_z3(e, names)
+            if z is None:
+                o.undecided.append(dict(entry=list(idx), reason="sign obligation is not polynomial in the variables"))
+                continue
+            hyp = []
+            for nm, v in names.items():
+                lo, hi = None, None
+                for rx, (a, b) in bounds.items():
+                    if re.search(rx, nm):
+                        lo, hi = a, b
+                        break
+                if lo is not None:
+                    hyp.append(v >= lo)
+                if hi is not None:
+                    hyp.append(v <= hi)
+            r, model = smt.prove(z3.Implies(z3.And(hyp) if hyp else z3.BoolVal(True), z > 0), timeout_ms=20000)
+            if r == "proved":
+                o.ok += 1
+                if o.sample is None:
+                    o.sample = "%s%s: %s > 0 on the box (z3 unsat of the negation)" % (name, list(idx), S.show(e, 4))
+            elif r == "refuted":
+                w = {}
+                s_ = z3.Solver()
+                s_.add(z3.And(hyp) if hyp else z3.BoolVal(True), z3.Not(z > 0))
+                if s_.check() == z3.sat:
+                    md = s_.model()
+                    for nm, v in names.items():
+                        val = md.eval(v, model_completion=True)
+                        try:
+                            w[nm] = float(val.as_fraction())
+                        except Exception:
+                            w[nm] = float(val.approx(20).as_fraction()) if hasattr(val, "approx") else 0.0
+                o.refuted.append(dict(entry=list(idx), witness=w, value=None, solver="z3: sat for the negation"))
+            else:
+                o.undecided.append(dict(entry=list(idx), reason="z3 returned unknown"))
+        o.secs = time.time() - t0
+        return o
+
     def note(self, s):
         self.notes.append(s)
 
@@ -387,6 +462,17 @@ class Env:
         if self.sym:
             helpers.activate(getattr(helpers, family + "_stubs")())
             self.assumptions.add("helper contracts of %s are used as opaque atoms (proved separately by the helper.* jobs)" % family)
+
+    def numeric_pi(self, abs_roundoff=1e-13):
+        """mesh generators evaluate cos/sin of concrete multiples of pi: pi is the float constant, and float residues
+        such as cos(pi/2) = 6e-17 are dropped (coefficients below abs_roundoff times the largest coefficient)"""
+        if self.sym:
+            sx.SYMBOLIC_PI[0] = False
+            self.xp = npshim.make(False)
+            self.pi = np.pi
+            self.abs_roundoff = abs_roundoff
+            self.assumptions.add("pi is the float constant in this job; monomials with coefficients below %g of the largest "
+                                 "coefficient of an obligation are float residues of concrete trigonometric values and are dropped" % abs_roundoff)
 
     def generic_position(self, on=True):
         """exclude ties: distinct terms compare unequal (measure-zero coincidences are a stated exemption)"""
